@@ -24,6 +24,10 @@ type Subscription struct {
 	// resolved against. It is kept here and not on the field since the
 	// field belongs to the parsed request which may be resolved again.
 	ftype Type
+
+	// vars are the variables of the operation that made the subscription,
+	// the selection set of the field is resolved with them for each event.
+	vars map[string]interface{}
 }
 
 // NewSubscription creates a new subscription. It should be called in a
